@@ -321,7 +321,47 @@ def op_callback_return(p, r):
     return op.name, m.name, "callback in return position"
 
 
-OPERATORS = [op_owned_opaque_param, op_opaque_by_value_param, op_opaque_by_value_return, op_opaque_by_value_field, op_opaque_by_value_self,
+def op_ordering_field(p, r):
+    st = struct_or_outstruct(p, r)
+    if not st:
+        return None
+    st.fields.append(("bad", raw("core::cmp::Ordering")))
+    return st.name, None, "cmp::Ordering in a struct field"
+
+
+def op_unit_field(p, r):
+    st = struct_or_outstruct(p, r)
+    if not st:
+        return None
+    st.fields.insert(0, ("bad", raw("()")))
+    return st.name, None, "unit type in a struct field"
+
+
+def op_write_field(p, r):
+    st = first(p, "struct")
+    if not st:
+        return None
+    st.fields.append(("bad", raw("Box<DiplomatWrite>")))
+    return st.name, None, "DiplomatWrite inside a struct"
+
+
+def op_option_result_return(p, r):
+    op = first(p, "opaque")
+    if not op:
+        return None
+    m = add_method(op, "bad_ret", ("ref", None), [], raw("Option<Result<u8, ()>>"))
+    return op.name, m.name, "Result inside Option in return position"
+
+
+def op_result_in_result(p, r):
+    op = first(p, "opaque")
+    if not op:
+        return None
+    m = add_method(op, "bad_ret", ("ref", None), [], raw("Result<Result<u8, ()>, ()>"))
+    return op.name, m.name, "Result as the Ok arm of a Result"
+
+
+OPERATORS = [op_ordering_field, op_unit_field, op_write_field, op_option_result_return, op_result_in_result, op_owned_opaque_param, op_opaque_by_value_param, op_opaque_by_value_return, op_opaque_by_value_field, op_opaque_by_value_self,
              op_outstruct_param, op_outstruct_self, op_ref_struct_param, op_ref_struct_self, op_box_struct_return, op_ref_prim_param,
              op_result_param, op_result_nested_return, op_result_field, op_std_option_prim_field, op_std_option_enum_field,
              op_std_option_struct_field, op_diplomat_option_ref, op_option_box_param, op_option_opaque_value, op_write_not_last,
